@@ -55,6 +55,7 @@ void DataNode :: Reset()
    _parent             = NULL;
    _depth              = 0;
    _maxChildIDHint     = 0;
+   _orderedCounter     = 0;  // so that a recycled DataNode names its auto-named ordered children the same way a newly constructed one would
    _data.Reset();
    _cachedDataChecksum = INVALID_CACHED_CHECKSUM;
 }
